@@ -12,13 +12,23 @@
 struct RelocEntry g_re0;              /* ghost: the entry on entry */
 uint64_t g_word0, g_base0;            /* ghost: placeholder word at the patched site, holder's base address on entry */
 uint64_t g_off[2];                    /* ghost: section offsets */
-#define VERIF_GHOST_INIT() (g_k = nondet_size_t(), __CPROVER_havoc_object(&g_re0), __CPROVER_havoc_object(&g_word0), __CPROVER_havoc_object(&g_base0), __CPROVER_havoc_object(g_off))
+uint64_t g_bsz[2];                    /* ghost: section buffer sizes */
+#define VERIF_GHOST_INIT() (g_k = nondet_size_t(), __CPROVER_havoc_object(&g_re0), __CPROVER_havoc_object(&g_word0), __CPROVER_havoc_object(&g_base0), __CPROVER_havoc_object(g_off), __CPROVER_havoc_object(g_bsz))
+#ifdef VERIF_NATIVE_REPLAY      /* compiled as C++ against the real classes: bases are inherited, enums are scoped */
+#define SECS(self) ((self)->_sections)
+#define RELS(self) ((self)->_relocations)
+#define SBO(self) ((self)->_sections_by_order)
+#else
 #define SECS(self) ((self)->_sections.__b0)
 #define RELS(self) ((self)->_relocations.__b0)
+#define SBO(self) ((self)->_sections_by_order.__b0)
+#endif
+#define RT(re) ((unsigned)(re)->_reloc_type)
+#define FT(f) ((unsigned)(f)->_type)
 #define SECP(self, i) (((struct Section**)SECS(self)._data)[i])
 #define REL(self, i) (((struct RelocEntry**)RELS(self)._data)[i])
-#define FMT_WF_ANY(f) ((f)->_value_size == 8 ? (spec_format_wf((f)->_type, 8, (f)->_imm_bit_count, (f)->_imm_bit_shift, (f)->_imm_discard_lsb, 64) && (f)->_type <= 1) \
-                                            : spec_format_wf((f)->_type, (f)->_value_size, (f)->_imm_bit_count, (f)->_imm_bit_shift, (f)->_imm_discard_lsb, 32))
+#define FMT_WF_ANY(f) ((f)->_value_size == 8 ? (spec_format_wf(FT(f), 8, (f)->_imm_bit_count, (f)->_imm_bit_shift, (f)->_imm_discard_lsb, 64) && FT(f) <= 1) \
+                                            : spec_format_wf(FT(f), (f)->_value_size, (f)->_imm_bit_count, (f)->_imm_bit_shift, (f)->_imm_discard_lsb, 32))
 static inline uint64_t c_le64(const uint8_t* p, unsigned n) { uint64_t v = 0; for (unsigned i = 0; i < 8; i++) if (i < n) v |= (uint64_t)p[i] << (8 * i); return v; }
 static inline _Bool c_in_bounds(const struct RelocEntry* re, const struct Section* s) {
   return re->_source_offset < s->_buffer._size && s->_buffer._size - re->_source_offset >= re->_format._region_size;
@@ -26,16 +36,19 @@ static inline _Bool c_in_bounds(const struct RelocEntry* re, const struct Sectio
 static inline _Bool c_reloc_state(const struct CodeHolder* self) {
   if (SECS(self)._size != 2 || RELS(self)._size > 1 || self->_address_table_section != NULL) return 0;
   if (!((unsigned)self->_environment._arch == 1 || (unsigned)self->_environment._arch == 2)) return 0;      /* x86 / x86-64 */
-  for (unsigned i = 0; i < 2; i++) { if (SECP(self, i)->_buffer._size > VERIF_BUF || SECP(self, i)->_offset != g_off[i] || g_off[i] > ((uint64_t)1 << 40)) return 0; }
-  if (self->_sections_by_order.__b0._size != 2 || ((struct Section**)self->_sections_by_order.__b0._data)[1] != SECP(self, 1)) return 0;
+  for (unsigned i = 0; i < 2; i++) { if (SECP(self, i)->_buffer._size > VERIF_BUF || SECP(self, i)->_offset != g_off[i] || g_off[i] > ((uint64_t)1 << 40) || g_bsz[i] != SECP(self, i)->_buffer._size) return 0; }
+  if (SBO(self)._size != 2 || ((struct Section**)SBO(self)._data)[1] != SECP(self, 1)) return 0;
   if (g_base0 != self->_base_address) return 0;
   if (RELS(self)._size == 1) {
     const struct RelocEntry* re = REL(self, 0);
-    if (re->_reloc_type > 6 || re->_reloc_type == 1 /* kExpression: not covered */) return 0;
+    if (RT(re) > 6 || RT(re) == 1 /* kExpression: not covered */) return 0;
     if (re->_source_section_id >= 2 || !(re->_target_section_id < 2 || re->_target_section_id == 0xFFFFFFFFu)) return 0;
     if (!FMT_WF_ANY(&re->_format) || (unsigned)re->_format._value_offset + re->_format._value_size > re->_format._region_size) return 0;
-    if (g_re0._reloc_type != re->_reloc_type || g_re0._source_section_id != re->_source_section_id || g_re0._target_section_id != re->_target_section_id ||
+    if (RT(&g_re0) != RT(re) || g_re0._source_section_id != re->_source_section_id || g_re0._target_section_id != re->_target_section_id ||
         g_re0._source_offset != re->_source_offset || g_re0._payload != re->_payload) return 0;
+    if (FT(&g_re0._format) != FT(&re->_format) || g_re0._format._flags != re->_format._flags || g_re0._format._region_size != re->_format._region_size || g_re0._format._value_size != re->_format._value_size ||
+        g_re0._format._value_offset != re->_format._value_offset || g_re0._format._imm_bit_count != re->_format._imm_bit_count || g_re0._format._imm_bit_shift != re->_format._imm_bit_shift ||
+        g_re0._format._imm_discard_lsb != re->_format._imm_discard_lsb) return 0;
     if (c_in_bounds(re, SECP(self, re->_source_section_id)) &&
         g_word0 != c_le64(SECP(self, re->_source_section_id)->_buffer._data + re->_source_offset + re->_format._value_offset, re->_format._value_size)) return 0;
   }
@@ -46,22 +59,22 @@ static inline uint64_t c_expected_value(const struct CodeHolder* self, const str
   uint64_t v = g_re0._payload; *err = 0;
   unsigned addr_size = (unsigned)self->_environment._arch == 1 ? 4 : 8;
   uint64_t site_end = base + g_off[g_re0._source_section_id] + g_re0._source_offset + re->_format._region_size;   /* address after the patched region */
-  switch (g_re0._reloc_type) {
+  switch (RT(&g_re0)) {
     case 3: /* kAbsToAbs */ return v;
     case 4: /* kRelToAbs */ if (g_re0._target_section_id == 0xFFFFFFFFu) { *err = E_INVALID_RELOC_ENTRY; return 0; } return v + base + g_off[g_re0._target_section_id];
     case 5: /* kAbsToRel */
     case 6: /* kX64AddressEntry, rel32 reachable */
-      if (g_re0._reloc_type == 6 && (re->_format._value_size != 4 || g_re0._source_offset + re->_format._value_offset < 2)) { *err = E_INVALID_RELOC_ENTRY; return 0; }
+      if (RT(&g_re0) == 6 && (re->_format._value_size != 4 || g_re0._source_offset + re->_format._value_offset < 2)) { *err = E_INVALID_RELOC_ENTRY; return 0; }
       v -= site_end;
-      if (g_re0._reloc_type == 5 && addr_size == 4) return (uint64_t)(int64_t)(int32_t)(uint32_t)v;      /* wraps in a 32-bit address space */
-      if ((int64_t)v < -2147483648LL || (int64_t)v > 2147483647LL) { *err = g_re0._reloc_type == 5 ? E_RELOC_OOR : E_INVALID_RELOC_ENTRY; return 0; }   /* no address table here */
+      if (RT(&g_re0) == 5 && addr_size == 4) return (uint64_t)(int64_t)(int32_t)(uint32_t)v;      /* wraps in a 32-bit address space */
+      if ((int64_t)v < -2147483648LL || (int64_t)v > 2147483647LL) { *err = RT(&g_re0) == 5 ? E_RELOC_OOR : E_INVALID_RELOC_ENTRY; return 0; }   /* no address table here */
       return v;
     default: *err = E_INVALID_RELOC_ENTRY; return 0;   /* kSectionRelative (2) is not handled by relocate_to_base */
   }
 }
 static inline int c_reloc_post(const struct CodeHolder* self, uint64_t base, uint32_t ret) {
   if (base == ~(uint64_t)0) return (ret == E_INVALID_ARGUMENT && self->_base_address == g_base0) ? 0 : 1;     /* R0 a base address is required */
-  if (RELS(self)._size == 0 || g_re0._reloc_type == 0) return ret == E_OK && self->_base_address == base ? 0 : 2;
+  if (RELS(self)._size == 0 || RT(&g_re0) == 0) return ret == E_OK && self->_base_address == base ? 0 : 2;
   const struct RelocEntry* re = REL(self, 0);
   const struct Section* s = SECP(self, g_re0._source_section_id);
   uint64_t w = 0; _Bool inb = c_in_bounds(re, s);
@@ -69,12 +82,12 @@ static inline int c_reloc_post(const struct CodeHolder* self, uint64_t base, uin
   if (!inb) return ret == E_INVALID_RELOC_ENTRY ? 0 : 3;                                  /* R1 out-of-section entries are rejected (no write is possible: frame) */
   uint32_t err; uint64_t want = c_expected_value(self, re, base, &err);
   if (err) return (ret == err && w == g_word0) ? 0 : 4;                                     /* R2 type-specific rejection, site untouched */
-  _Bool fits = spec_representable((int64_t)want, re->_format._type, re->_format._imm_bit_count, re->_format._imm_discard_lsb);
+  _Bool fits = spec_representable((int64_t)want, FT(&re->_format), re->_format._imm_bit_count, re->_format._imm_discard_lsb);
   if (!fits) return (ret == E_INVALID_RELOC_ENTRY && w == g_word0) ? 0 : 5;                 /* R3 value does not fit the field */
   if (ret != E_OK) return 6;
-  uint64_t m = spec_field_mask(re->_format._type, re->_format._imm_bit_count, re->_format._imm_bit_shift);
+  uint64_t m = spec_field_mask(FT(&re->_format), re->_format._imm_bit_count, re->_format._imm_bit_shift);
   if ((w & ~m) != (g_word0 & ~m)) return 7;                                                 /* R4 only the field changes */
-  if ((g_word0 & m) == 0 && (uint64_t)spec_offset_decode(w, re->_format._type, re->_format._imm_bit_count, re->_format._imm_bit_shift, re->_format._imm_discard_lsb) != want) return 8;  /* R5 */
+  if ((g_word0 & m) == 0 && (uint64_t)spec_offset_decode(w, FT(&re->_format), re->_format._imm_bit_count, re->_format._imm_bit_shift, re->_format._imm_discard_lsb) != want) return 8;  /* R5 */
   return self->_base_address == base ? 0 : 9;
 }
 #define FRESH_SEC(self, i) __CPROVER_requires(__CPROVER_is_fresh(SECP(self, i), sizeof(struct Section))) \
